@@ -104,6 +104,45 @@ pub fn gen_case(ctx: &mut Ctx, big: bool) -> StreamCase {
     StreamCase { z: g.bytes, zlib, tag: format!("valid:{}", g.features.join(",")), expect_len: g.plain.len(), prefix_of_valid: false, trail: 0 }
 }
 
+/// Matches that reach almost a whole 32 KiB ring back (distance 32768 − k for small k): with a ring
+/// output buffer the source then lies just AHEAD of the write position. The bundled compressor never
+/// emits them; a foreign encoder may. One or two stored blocks of random bytes, then a final
+/// fixed-Huffman block with such matches in front of, between and behind literals.
+pub fn ring_far_case(ctx: &mut Ctx) -> StreamCase {
+    use crate::sgen::{canonical_codes, fixed_lit_lens, write_tokens, BitWriter, Tok};
+    let zlib = ctx.rng.chance(1, 2);
+    let n = ctx.rng.range(32768, 42000);
+    let mut plain: Vec<u8> = ctx.rng.bytes(n);
+    let mut w = BitWriter::new();
+    if zlib { w.put(0x78, 8); w.put(0x9c, 8); }
+    let mut pos = 0;
+    while pos < n {
+        let k = (n - pos).min(*ctx.rng.pick(&[65535usize, 40000, 33000]));
+        w.put(0, 1); w.put(0, 2); w.align();
+        w.put(k as u32, 16); w.put((!k as u32) & 0xFFFF, 16);
+        for &b in &plain[pos..pos + k] { w.put(b as u32, 8); }
+        pos += k;
+    }
+    let mut toks: Vec<Tok> = vec![];
+    let nm = ctx.rng.range(1, 4);
+    for _ in 0..nm {
+        for _ in 0..ctx.rng.range(0, 70) { let b = ctx.rng.byte(); plain.push(b); toks.push(Tok::Lit(b)); }
+        let len = *ctx.rng.pick(&[3usize, 4, 5, 8, 9, 100, 258]);
+        let dist = (32768 - *ctx.rng.pick(&[0usize, 1, 1, 1, 2, 3, 7, 8, 257, 258])).min(plain.len());
+        for _ in 0..len { let b = plain[plain.len() - dist]; plain.push(b); }
+        toks.push(Tok::Copy { len, dist });
+    }
+    for _ in 0..ctx.rng.range(0, 80) { let b = ctx.rng.byte(); plain.push(b); toks.push(Tok::Lit(b)); }
+    let ll = fixed_lit_lens(); let lc = canonical_codes(&ll);
+    let dl = vec![5u8; 32]; let dc = canonical_codes(&dl);
+    w.put(1, 1); w.put(1, 2);
+    write_tokens(&mut w, &toks, &ll, &lc, &dl, &dc);
+    w.align();
+    if zlib { let a = crate::sgen::adler32(&plain); for sh in [24, 16, 8, 0] { w.put((a >> sh) & 0xFF, 8); } }
+    ctx.count("ring_far_cases");
+    StreamCase { z: w.finish(), zlib, tag: "valid:ring_far".into(), expect_len: plain.len(), prefix_of_valid: false, trail: 0 }
+}
+
 pub fn replay(ctx: &mut Ctx) -> bool {
     if let Some(lines) = ctx.replay_lines.clone() {
         for l in lines { if let Some(rest) = l.strip_prefix("STREAM ") { let kv = crate::kv(rest);
@@ -123,6 +162,10 @@ pub fn run(ctx: &mut Ctx) {
         let sc = gen_case(ctx, i % 9 == 8);
         let small = sc.z.len() <= 300;
         run_stream(ctx, &sc, 3, small && i % 4 == 0);
+    }
+    for _ in 0..(12 * ctx.scale) {
+        let sc = ring_far_case(ctx);
+        run_stream(ctx, &sc, 2, false);
     }
 }
 
